@@ -44,6 +44,32 @@ func (e *Engine) loadLocalsBaseline(verifDir string) {
 			for _, n := range names {
 				e.funcsBase[n] = true
 			}
+			// methods that are new on a type the baseline already knew (it had methods then)
+			hadMethods := map[string]bool{}
+			for _, n := range names {
+				if i := strings.LastIndex(n, "."); i > 0 && !strings.HasPrefix(n, "var:") && !strings.HasPrefix(n, "main.") {
+					hadMethods[n[:i]] = true
+				}
+			}
+			e.newMethods = map[string][]string{}
+			for fn, fi := range e.funcs {
+				if fi == nil || fi.decl == nil || fi.decl.Recv == nil {
+					continue
+				}
+				if strings.HasSuffix(e.fset.Position(fi.decl.Pos()).Filename, "_test.go") {
+					continue
+				}
+				k := funcKey(fn)
+				if e.funcsBase[k] {
+					continue
+				}
+				if i := strings.LastIndex(k, "."); i > 0 && hadMethods[k[:i]] {
+					e.newMethods[k[:i]] = append(e.newMethods[k[:i]], k)
+				}
+			}
+			for _, ms := range e.newMethods {
+				sort.Strings(ms)
+			}
 		}
 	}
 }
